@@ -134,7 +134,7 @@ Lemma mz_row_sound t c s m r k :
   mz_authorise t c s m r = true -> mz_entitled t c s m k.
 Proof.
   intros W PL Z NF CL OK A.
-  unfold mz_authorise in A. apply andb_prop in A as [A AF]. apply andb_prop in A as [AE AO].
+  unfold mz_authorise, mz_authorise_core in A. apply andb_prop in A as [A AF]. apply andb_prop in A as [AE AO].
   (* sender identity whenever there is an endpoint *)
   assert (HEP : forall x, mz_ep s = Some x ->
             exists ez, x = Some ez /\ mz_cauth s = true /\ mz_cident s = Some (Some ez)).
@@ -236,7 +236,7 @@ Proof.
   pose proof mz_anon_rows_now as AR. rewrite forallb_forall in AR. specialize (AR r I).
   unfold mz_anon_row_ok in AR. rewrite CL in AR.
   assert (R : mz_rep r = true -> mz_authorise t c s m r = false).
-  { intros R. unfold mz_authorise. rewrite R, E. reflexivity. }
+  { intros R. unfold mz_authorise, mz_authorise_core. rewrite R, E. reflexivity. }
   destruct k; unfold mz_row_ok in OK; try (left; apply R; mz_split OK; exact OK).
   - (* CertUpdate *) left. destruct (mz_rep r) eqn:RR; [apply R; reflexivity|].
     exfalso; apply NF; repeat split; auto.
@@ -295,11 +295,11 @@ Proof.
   assert (PL0 : mz_placed t c m0) by (apply PLx; reflexivity).
   split; intros CK; rewrite CK in CL; inversion CL; subst k.
   - assert (A' : mz_authorise t c s m0 r = true).
-    { unfold mz_row_ok in OK. mz_split OK. unfold mz_authorise in *. destruct (mz_rpat r); try discriminate; exact A. }
+    { unfold mz_row_ok in OK. mz_split OK. unfold mz_authorise, mz_authorise_core in *. destruct (mz_rpat r); try discriminate; exact A. }
     destruct (mz_row_sound t c s m0 r MzKConfig W PL0 Z (NF (or_introl eq_refl)) CK OK A') as (ez & Ha & Hi & An & Fl).
     split; eauto.
   - assert (A' : mz_authorise t c s m0 r = true).
-    { unfold mz_row_ok in OK. mz_split OK. unfold mz_authorise in *. destruct (mz_rpat r); try discriminate; exact A. }
+    { unfold mz_row_ok in OK. mz_split OK. unfold mz_authorise, mz_authorise_core in *. destruct (mz_rpat r); try discriminate; exact A. }
     destruct (mz_row_sound t c s m0 r MzKCommand W PL0 Z (NF (or_intror eq_refl)) CK OK A') as (ez & Ha & Hi & An & Fl).
     split; eauto.
 Qed.
@@ -307,4 +307,7 @@ Qed.
 (* refusal is final: MessageHandler applies nothing when the handler's checks fail or the message is dropped as old *)
 Lemma mz_handle_refused t c s m ts r eff :
   mz_authorise t c s m r = false -> mz_applied (mz_handle t c s m ts (Some r) eff) = false.
-Proof. intros H. unfold mz_handle. destruct (_ && _); cbn; [reflexivity|]. rewrite H. reflexivity. Qed.
+Proof.
+  intros H. unfold mz_handle, mz_handle_core. cbn [option_map mz_row_core]. destruct (_ && _); cbn; [reflexivity|].
+  unfold mz_authorise in H. rewrite H. reflexivity.
+Qed.
